@@ -420,6 +420,58 @@ def run(ctx):
         record(kind, data, ml, cs, ch, hist, 'random')
 
     ctx.progress('leg B2 done: %d executions, %d distinct traces' % (ctx.evaluations, len(seen)))
+    # ---- leg B3: beyond the join limit ------------------------------------------------------
+    # both readers switch to another code path when the normalised size exceeds chunk_size * _MAX_JOIN_CHUNKS
+    # (sync 128, async 1024 chunks); with chunk_size 1..2 that path is reached by data of a few hundred bytes
+    import falcon.util.reader as _sr
+    import falcon.asgi.reader as _ar
+    joins = {'sync': getattr(_sr, '_MAX_JOIN_CHUNKS', 128), 'async': getattr(_ar, '_MAX_JOIN_CHUNKS', 1024)}
+    for i in range(ctx.pick(360, 6000)):
+        kind = 'sync' if i % 3 else 'async'
+        cs = rng.randint(1, 2) if kind == 'sync' else 1
+        lim = joins[kind] * cs
+        cand = [d for d in all_delims if len(d) <= cs]
+        d0 = rng.choice(cand)
+        L = lim + rng.randint(1, 70)
+        filler = bytes(rng.choice([X, X, X, B, LF]) if d0 != bytes([LF]) else X for _ in range(L))
+        data = bytearray(filler)
+        where = rng.choice(['none', 'far', 'far', 'near', 'edge', 'two'])
+        spots = {'none': [], 'far': [rng.randint(lim - 2, L - len(d0))], 'near': [rng.randint(0, 6)],
+                 'edge': [lim - len(d0) + rng.randint(0, len(d0))],
+                 'two': [rng.randint(lim - 2, L - len(d0)), rng.randint(lim // 2, L - len(d0))]}[where]
+        for sp in spots:
+            sp = max(0, min(sp, L - len(d0)))
+            data[sp:sp + len(d0)] = d0
+        data = bytes(data)
+        big = [-1, -1, lim + 1, lim + 2, lim, L, L + 5, L - 1, lim + 40]
+        hist = []
+        if rng.random() < 0.5:
+            hist.append(rng.choice([('read', 1), ('peek', 2), ('read', cs), ('read_until', d0, 1, False)]))
+        t = rng.random()
+        if t < 0.55:
+            hist.append(('read_until', d0, rng.choice(big), rng.random() < 0.6))
+        elif t < 0.70:
+            hist.append(('read', rng.choice(big)))
+        elif t < 0.82:
+            hist += [('delimit', d0), ('read_until', rng.choice(cand), rng.choice(big), rng.random() < 0.5)]
+        elif t < 0.92:
+            hist += [('delimit', d0), ('read', rng.choice(big))]
+        else:
+            hist.append(('pipe_until', d0, rng.random() < 0.5))
+        hist += [('peek', len(d0)), ('read_until', d0, rng.choice([-1, 3, lim + 1]), rng.random() < 0.5),
+                 ('endsub',), ('read', 2), ('read', -1)]
+        if kind == 'sync':
+            ch = [rng.choice([1, 2, 3, 7, 64, 200, L]) for _ in range(rng.randint(1, 3))]
+        else:
+            ch = []
+            left = len(data)
+            while left > 0:
+                kk = min(left, rng.choice([1, 5, 64, 300, 1100]))
+                ch.append(kk)
+                left -= kk
+        record(kind, data, len(data), cs, ch, hist, 'long')
+
+    ctx.progress('leg B3 done: %d executions, %d distinct traces' % (ctx.evaluations, len(seen)))
     # ---- judge all distinct traces with TLC ---------------------------------------------------
     items = list(seen.values())
     traces = [t for t, _ in items]
